@@ -1,6 +1,61 @@
-//! C07 — stub (to be written; see /verif/harness/AUTHORING.md and DESIGN.md §3 C07)
-use vengine::Property;
+//! C07 — nearest-neighbour indices return the true neighbours and are interchangeable.
+//!
+//! One case = element type, metric, point set, leaf size and up to a few queries (point, k, radius).
+//! The three index kinds are built through `CommonNearestNeighbour` and every answer is compared with
+//! a brute-force scan that uses the crate's own `rdistance` (the same floats the indices see), so
+//! distances compare exactly except where an index derives a pruning bound through rounded
+//! arithmetic (tolerances in `oracle.rs`). The four `Distance` implementations are checked separately
+//! against independent formulas.
+
+pub mod case;
+pub mod gen;
+pub mod oracle;
+
+pub use case::{case_from_bytes, Case, Metric, PointClass, Query, QueryClass, Radius};
+pub use oracle::{check_case, check_distance, DistCase};
+
+use gen::Malformed;
+use proptest::prelude::*;
+use vengine::{enum_sub, prop_sub, Property, Tier};
+
+fn index_strategy(t: Tier) -> BoxedStrategy<Case> {
+    match t {
+        Tier::Quick => gen::case_strategy(60, Malformed::Rare).boxed(),
+        Tier::Thorough => prop_oneof![
+            3 => gen::case_strategy(60, Malformed::Rare),
+            1 => gen::case_strategy(400, Malformed::Rare),
+        ]
+        .boxed(),
+    }
+}
 
 pub fn property() -> Property {
-    Property { id: "C07", rule: "", assumptions: vec![], subs: vec![] }
+    Property {
+        id: "C07",
+        rule: "case = (f32|f64, metric L1/L2/Linf/Lp(1,1.5,2,3), point set of class lattice/all-equal/duplicates/clustered/uniform/collinear/rough \
+               with n in 0..=60 (thorough: a quarter up to 400) and dim 1..=16, leaf size in {1,2,3,16,n,random}, 1..3 queries (stored point, lattice point, \
+               midpoint, cell centre, far point; k in 0..=n+3; radius 0 / integer / exactly the distance to a stored point / between two consecutive \
+               distances / beyond the diameter)); plus an exhaustive stratum of all multisets over {0..3} (1-D) and subsets of the 3x3 grid (2-D). \
+               Non-trivial = some query has an exact distance tie at rank k, or a stored point exactly on the radius (reduced distance bit-equal to the \
+               reduced radius), or leaf size < n/4 (the trees really branch); distinct = distinct canonical JSON of the case",
+        assumptions: vec![
+            "coordinates are finite with |x| <= 1e6 (NaN/infinite input is documented as unspecified); batches are standard-layout (KdTree documents a panic otherwise); Lp exponents >= 1 (triangle inequality is a documented precondition)".into(),
+            "reference = linear scan with the crate's own Distance::rdistance(query, row) in the element type; comparisons on these values are exact".into(),
+            format!("k-nearest: as sorted lists the returned distances may exceed the true ones by {} eps (relative); for BallTree, and for KdTree under Lp (box bound through powf), additionally by {} (dim+8) eps M absolute, M = largest query-to-point distance (rounding of the sphere bound distance(q,centre) - radius)", oracle::BAND_EPS, oracle::GEO_EPS),
+            format!("range: a point must be present if rd < r'(1 - {0} eps) (BallTree / KdTree-Lp: and distance < radius - the allowance above), must be absent if rd > r'(1 + {0} eps); rd == r' bit-for-bit: free but all three kinds must choose alike; other points in the band are free", oracle::BAND_EPS),
+            format!("Distance functions against formulas evaluated in f64: |a-b| <= {} eps max(|a|,|b|) + min_positive; conversions round-trip within {} eps; order preservation is exact", oracle::FORMULA_EPS, oracle::BAND_EPS),
+            "malformed input (0 columns, leaf size 0, query length != dim) must give Err from build / both query kinds; a panic or an answer is a failure".into(),
+        ],
+        subs: vec![
+            prop_sub("indices", 100000, 1200000, index_strategy, check_case).chunks(16).require(&[
+                "pts_lattice", "pts_all_equal", "pts_duplicates", "n_0", "n_1", "k_0", "k_gt_n", "tie_at_rank_k",
+                "point_exactly_on_radius", "leaf_lt_quarter_n", "elem_f32", "metric_lp", "radius_zero",
+            ]),
+            enum_sub("small_exhaustive", |t: Tier| gen::small_exhaustive(t == Tier::Thorough), check_case).chunks(8),
+            prop_sub("malformed", 6000, 60000, |_t: Tier| gen::case_strategy(12, Malformed::Always), check_case)
+                .chunks(4)
+                .require(&["malformed_zero_dim", "malformed_zero_leaf", "malformed_query_dimension"]),
+            prop_sub("distance", 40000, 400000, |_t: Tier| gen::dist_case_strategy(), check_distance).chunks(4),
+        ],
+    }
 }
